@@ -355,6 +355,9 @@ func (gp *GenginePool) UpdatePooledRulesIncremental(ruleStr string) error {
 		return e
 	}
 
+	//a cleared pool has no main rule builder: start again from an empty rule set
+	gp.ensureRuleBuilder()
+
 	//update main
 	updateIncremental(kci, gp.ruleBuilder)
 
@@ -365,6 +368,20 @@ func (gp *GenginePool) UpdatePooledRulesIncremental(ruleStr string) error {
 
 	gp.clear = false
 	return nil
+}
+
+//callers hold updateLock
+func (gp *GenginePool) ensureRuleBuilder() {
+	if gp.ruleBuilder != nil {
+		return
+	}
+	dataContext := context.NewDataContext()
+	if gp.apis != nil {
+		for k, v := range gp.apis {
+			dataContext.Add(k, v)
+		}
+	}
+	gp.ruleBuilder = builder.NewRuleBuilder(dataContext)
 }
 
 //clear all rules in engine in pool
@@ -382,6 +399,9 @@ func (gp *GenginePool) ClearPoolRules() {
 func (gp *GenginePool) RemoveRules(ruleNames []string) error {
 	gp.updateLock.Lock()
 	defer gp.updateLock.Unlock()
+
+	//a cleared pool has no main rule builder: there is nothing to remove from an empty rule set
+	gp.ensureRuleBuilder()
 
 	e := gp.ruleBuilder.RemoveRules(ruleNames)
 	if e != nil {
